@@ -27,6 +27,10 @@ type stopScenario struct {
 	cancelBeforeError bool
 }
 
+func announceFailsCause(cause string) bool {
+	return cause == "announce-rejected" || cause == "announce-lost" || cause == "dump-unsendable"
+}
+
 var stopCauses = []string{"eof", "err", "close", "reset", "short", "outofseq", "cancel-idle", "cancel-handler", "handler-err", "handler-err-cancel", "invalid", "unsupported", "unknown-table", "mapper-err", "connect-fail", "announce-rejected", "announce-lost", "dump-unsendable", "foreign-packet"}
 
 // runTermination covers C05 (termination, nothing left behind, Error() never blocks, handler scope) and
@@ -217,8 +221,31 @@ func runStopScenario(c *Ctx, prop string, h *history, evs [][]byte, idx []int, f
 		env.m.queryReply = func(int, string) string { return reply }
 		env.m.mu.Unlock()
 	}
+	// a third of the scenarios are the SECOND attempt on their streamer: an earlier Stream call on the same object was
+	// ended by the caller's cancellation, by the master's ERR packet or by its EOF, and Error() was called after it.
+	// Nothing of that attempt (a flag, a channel, a context) may leak into what this attempt reports.
+	attemptNo, prior := 0, ""
+	if q := c.Rng.Side(); !announceFailsCause(sc.cause) && sc.cause != "connect-fail" && len(evs) > 3 && q.Chance(1, 3) {
+		prior = q.PickS("cancelled", "err", "eof", "cancelled")
+		pa := e2eAttempt{events: evs[:2+q.Intn(len(evs)-2)], terminal: "eof", cancelInHandler: -1, holdAfter: -1, foreignCtx: q.Bool()}
+		switch prior {
+		case "cancelled":
+			pa.terminal, pa.cancelWhenIdle = "hang", true
+		case "err":
+			pa.terminal, pa.errCode, pa.errMsg = "err", 1236, "an earlier attempt's error"
+		}
+		env.s.SetBinlogPosition(gobinlog.Position{Filename: f0, Offset: o0})
+		pres := env.run(0, pa, base)
+		if !pres.returned {
+			c.R.Add(vh.Mismatch{Kind: "spec", What: "termination: the earlier attempt on the streamer did not return (" + prior + ")", Case: desc, InDomain: true})
+			return
+		}
+		attemptNo = 1
+		c.R.Dist["second-attempt-after-"+prior]++
+		desc += " second attempt on the streamer, the first ended by " + prior
+	}
 	env.s.SetBinlogPosition(gobinlog.Position{Filename: f0, Offset: o0})
-	res := env.runWith(0, a, base, sc.cancelBeforeError)
+	res := env.runWith(attemptNo, a, base, sc.cancelBeforeError)
 	announceFails := sc.cause == "announce-rejected" || sc.cause == "announce-lost" || sc.cause == "dump-unsendable"
 	masterCloses := a.terminal == "close" || a.terminal == "reset" || a.terminal == "short" || sc.cause == "announce-lost"
 
